@@ -5,9 +5,11 @@ import (
 	"go/constant"
 	"go/token"
 	"go/types"
+	"sort"
 	"strings"
 
 	"crverif/internal/an"
+	"crverif/internal/load"
 
 	"golang.org/x/tools/go/ssa"
 )
@@ -67,6 +69,7 @@ func isRecvField(e *an.Expr, name string) bool {
 }
 
 func runC04(c *Ctx) {
+	c04ForwardingReadAfresh(c)
 	// "all other content is unchanged": the builder writes nothing but the RA under construction, and the
 	// options plugins have produced are not rewritten afterwards (shared rules R-C01-4, R-C16-5)
 	c01Purity(c)
@@ -479,4 +482,51 @@ func isForwardingValue(e *an.Expr, depth int) bool {
 		}
 	}
 	return false
+}
+
+// c04ForwardingReadAfresh (R-C04-3, on the linux build): the forwarding state
+// handed to the RA builder is what the sysctl file says at that moment. Every
+// path of the sysctl reader that returns without error returns a value
+// computed from an os.ReadFile call made on that path (no value remembered
+// from an earlier call: files under /proc/sys do not change their mtime when
+// they are written), and getIPv6Forwarding returns that reader's result.
+func c04ForwardingReadAfresh(c *Ctx) {
+	gf := c.P.Func("internal/system", "getIPv6Forwarding")
+	if gf == nil || c.P.Cfg.GOOS != "linux" {
+		return // the other platforms have a constant stub
+	}
+	n, bad := 0, ""
+	var reach []*ssa.Function
+	for f := range an.ModuleReach([]*ssa.Function{gf}, load.InModule, nil) {
+		reach = append(reach, f)
+	}
+	sort.Slice(reach, func(i, j int) bool { return reach[i].String() < reach[j].String() })
+	for _, f := range reach {
+		if f.Signature.Results().Len() != 2 || !strings.HasSuffix(typeStr(f.Signature.Results().At(0).Type()), "bool") {
+			continue
+		}
+		ps, err := c.XO.Paths(f, an.PathOpts{EmitCut: true, MaxPaths: 20000, InlinePaths: c.helperInline(f)})
+		if err != nil {
+			bad = "paths of " + c.fname(f) + " not enumerable"
+			continue
+		}
+		for _, p := range ps {
+			if p.Ret == nil || len(p.Results) != 2 || !exprIsNil(p.Results[1]) {
+				continue
+			}
+			n++
+			reads := callsOnPath(p, func(cc *ssa.CallCommon) bool {
+				o := an.CalleeObj(cc)
+				return o != nil && o.Pkg() != nil && (o.Pkg().Path() == "os" || o.Pkg().Path() == "io/ioutil") && o.Name() == "ReadFile"
+			})
+			fromRead := p.Results[0].Contains(func(e *an.Expr) bool {
+				return e.Op == an.OpCall && e.Fn != nil && (e.Fn.String() == "os.ReadFile" || e.Fn.String() == "io/ioutil.ReadFile")
+			})
+			if len(reads) == 0 || !fromRead {
+				bad = fmt.Sprintf("%s returns %s with %d ReadFile call(s) on the path", c.fname(f), shortExpr(p.Results[0]), len(reads))
+			}
+		}
+	}
+	c.R.Check(bad == "" && n >= 1, "R-C04-3", c.fname(gf)+":read-afresh", c.fname(gf), c.pos(gf.Pos()), fmt.Sprintf("%d success path(s) of the forwarding reader; %s", n, bad),
+		"the value returned is computed from the sysctl file read on that very call", "a remembered forwarding value is used: RAs keep a non-zero router lifetime after forwarding was switched off")
 }
